@@ -452,12 +452,15 @@ def locally_feasible(events):
     forgotten at every call and yield, where other code may change the object."""
     env = {}
     groups = {}          # key -> set of keys naming the same object
+    seen_cmp = {}        # (frame id, dump of a comparison over locals and constants) -> (outcome, names)
 
     def forget_name(key):
         env.pop(key, None)
         g = groups.pop(key, None)
         if g is not None:
             g.discard(key)
+        for k in [k for k, v in seen_cmp.items() if k[0] == key[0] and key[1] in v[1]]:
+            del seen_cmp[k]
 
     def forget_obj(key):
         for k in list(groups.get(key, (key,))):
@@ -467,6 +470,10 @@ def locally_feasible(events):
         fid = id(e.frame)
         n = e.node
         if e.kind in ('for', 'for0', 'loop') and n is not None:
+            if seen_cmp:
+                stores_ = _loop_summary(n)[0]
+                for k in [k for k, v in seen_cmp.items() if k[0] == fid and (v[1] & stores_)]:
+                    del seen_cmp[k]
             if env:
                 stores, grow, shrink, escapes = _loop_summary(n)
                 for (f_, nm) in list(env):
@@ -492,6 +499,20 @@ def locally_feasible(events):
             v = _truth(n, env, fid)
             if v is not None and v != bool(e.pol):
                 return False
+            # the same comparison of locals (values, not objects) made twice gives one answer
+            t, pol = n, bool(e.pol)
+            while isinstance(t, ast.UnaryOp) and isinstance(t.op, ast.Not):
+                t, pol = t.operand, not pol
+            if isinstance(t, ast.Compare) and all(isinstance(x, (ast.Name, ast.Constant, ast.Compare, ast.cmpop, ast.expr_context,
+                                                                 ast.UnaryOp, ast.USub, ast.BinOp, ast.operator))
+                                                  for x in ast.walk(t)) and not any(
+                    isinstance(o, (ast.In, ast.NotIn, ast.Is, ast.IsNot)) for o in t.ops):
+                key = (fid, ast.dump(t))
+                if key in seen_cmp:
+                    if seen_cmp[key][0] != pol:
+                        return False
+                else:
+                    seen_cmp[key] = (pol, {x.id for x in ast.walk(t) if isinstance(x, ast.Name)})
         for nm, attr in touches:
             key = (fid, nm)
             st = env.get(key)
